@@ -57,6 +57,7 @@ impl Engine for IdleEngine {
         if idx == 13 { return vec!["idle.run mem-neversender idle 1".into()]; }
         if idx == 14 { return vec!["idle.run mem-latedrop after-reload 2".into()]; }
         if idx == 15 { return vec!["idle.run mem-keep burst-then-reload 1".into()]; }
+        if idx == 16 || (idx > 16 && idx % 12 == 5) { return vec![format!("idle.rootgone {}", rng.range(1, 4))]; }
         if idx == 12 {
             // every combination of the primitive's inputs over {0,1} messages
             let mut l = vec![];
@@ -114,6 +115,24 @@ impl Engine for IdleEngine {
                         Exit::Blocked(snap) => { rec.oracle_fail(format!("child-blocked `{line}`: the create/use/drop sequence itself never finished; threads {snap:?}")); rec.op(model_line, "blocked"); }
                         Exit::Timeout => { rec.oracle_fail(format!("child-timeout `{line}`")); rec.op(model_line, "timeout"); }
                     }
+                }
+                "idle.rootgone" => {
+                    // a FileSystem source whose directory disappeared before the cache was built: hot-reloading cannot start, and
+                    // nothing (no reloader thread, no watcher thread, no inotify instance) may be left behind when the cache is dropped
+                    let k = match w.get(1).and_then(|x| x.parse::<usize>().ok()) { Some(k) if w.len() == 2 && (1..=16).contains(&k) => k, _ => { rec.op(line.clone(), "bad-op"); rec.stat("malformed"); continue; } };
+                    rec.nontrivial = true;
+                    rec.stat("rootgone");
+                    let out = child::run_child("idle", line);
+                    let _ = std::fs::remove_dir_all(std::env::temp_dir().join(format!("amh-idle-{}", out.pid)));
+                    for o in &out.oracle { rec.oracle_fail(o.clone()); }
+                    let res = match &out.exit {
+                        Exit::Code(0) => out.results.iter().find(|r| r.starts_with("released") || r.starts_with("left-behind")).cloned().unwrap_or_else(|| "no-result".into()),
+                        Exit::Code(c) => { rec.oracle_fail(format!("child-failed exit code {c}: {}", out.stderr.lines().last().unwrap_or(""))); format!("child-exit-{c}") }
+                        Exit::Signal(s) => { rec.oracle_fail(format!("child-crashed `{line}`: killed by signal {s}")); "aborted".into() }
+                        Exit::Blocked(snap) => { rec.oracle_fail(format!("child-blocked `{line}`: threads {snap:?}")); "blocked".into() }
+                        Exit::Timeout => { rec.oracle_fail(format!("child-timeout `{line}`")); "timeout".into() }
+                    };
+                    rec.op(format!("idle.rootgone {k}"), res);
                 }
                 "idle.prim" => {
                     let parsed = (|| -> Option<(usize, usize, bool, bool)> {
@@ -222,8 +241,39 @@ impl assets_manager::source::Source for NeverStores {
 
 enum AnyCacheBox { Mem(AssetCache<MemSource>, MemSource), Never(AssetCache<NeverStores>, MemSource), Fs(AssetCache<assets_manager::source::FileSystem>, std::path::PathBuf) }
 
+fn child_rootgone(k: usize) {
+    crate::exec_world::quiet_panics();
+    let count = |p: &str| child::tasks(std::process::id()).into_iter().filter(|t| t.1.starts_with(p)).count();
+    let inotify = || std::fs::read_dir("/proc/self/fd").map(|d| d.flatten().filter(|e| std::fs::read_link(e.path()).map(|l| l.to_string_lossy().contains("inotify")).unwrap_or(false)).count()).unwrap_or(0);
+    let (w0, r0, i0) = (count("notify-rs"), count("assets_hot_rel"), inotify());
+    let base = std::env::temp_dir().join(format!("amh-idle-{}", std::process::id()));
+    for c in 0..k {
+        let dir = base.join(format!("gone{c}"));
+        std::fs::create_dir_all(&dir).unwrap();
+        std::fs::write(dir.join("a.txt"), b"x").unwrap();
+        let fs = assets_manager::source::FileSystem::new(&dir).expect("FileSystem::new");
+        std::fs::remove_dir_all(&dir).unwrap();
+        let cache = AssetCache::with_source(fs);
+        let _ = cache.load::<String>("a");
+        cache.hot_reload();
+        child::progress();
+        drop(cache);
+    }
+    // the directories come back and change: nothing of the dropped caches may still be listening
+    for c in 0..k { let dir = base.join(format!("gone{c}")); let _ = std::fs::create_dir_all(&dir); let _ = std::fs::write(dir.join("a.txt"), b"y"); }
+    let t0 = Instant::now();
+    while (count("notify-rs") > w0 || count("assets_hot_rel") > r0 || inotify() > i0) && t0.elapsed() < Duration::from_secs(3) { child::progress(); std::thread::sleep(Duration::from_millis(20)); }
+    let (w1, r1, i1) = (count("notify-rs"), count("assets_hot_rel"), inotify());
+    let _ = std::fs::remove_dir_all(&base);
+    if w1 > w0 || r1 > r0 || i1 > i0 {
+        println!("O watcher-thread-left-behind {k} cache(s) over a directory that was gone when hot-reloading was set up: {} watcher thread(s), {} reloader thread(s), {} inotify instance(s) left after the caches were dropped", w1 - w0.min(w1), r1 - r0.min(r1), i1 - i0.min(i1));
+        println!("R left-behind");
+    } else { println!("R released"); }
+}
+
 pub fn child_main(line: &str) {
     let w: Vec<&str> = line.split_whitespace().collect();
+    if w.first() == Some(&"idle.rootgone") { match w.get(1).and_then(|x| x.parse::<usize>().ok()) { Some(k) => return child_rootgone(k), None => std::process::exit(3) } }
     let (kind, when, k) = match parse_run(&w) { Some(x) => x, None => std::process::exit(3) };
     crate::exec_world::quiet_panics();
     let watchers_before = child::tasks(std::process::id()).into_iter().filter(|t| t.1.starts_with("notify-rs")).count();
